@@ -2,7 +2,7 @@
    a directory entry d/ listing a and sub/b, a file entry f sharing a's content, the root mapped
    to (cache 10, remote 20) and the prefix d/sub INSIDE the directory re-routed to remote 21. *)
 From Coq Require Import NArith List Bool Lia.
-From DvcData Require Import Base.Val Model.Transfer Model.PushFetch Proofs.TransferBase Proofs.TransferStatus Proofs.TransferLoop Proofs.TransferProofs Proofs.PushFetchResolve Proofs.PushFetchProofs.
+From DvcData Require Import Base.Val Model.Transfer Gen.StorageMap Model.PushFetch Proofs.TransferBase Proofs.TransferStatus Proofs.TransferLoop Proofs.TransferProofs Proofs.PushFetchResolve Proofs.PushFetchProofs.
 Import ListNotations.
 Open Scope N_scope.
 
